@@ -1632,3 +1632,280 @@ Proof.
   - apply Nat.eqb_eq in E. rewrite (Ho E). cbn [map snd]. unfold outs_of in IH'. rewrite IH'. reflexivity.
   - unfold outs_of in IH'. rewrite IH'. reflexivity.
 Qed.
+
+(* ------------------------------------------------------------------ C10 with several bearers *)
+Definition bst_ok (m : msrv) (x : bst) : Prop :=
+  ind_inv (proj m x) /\ 23 <= b_mtu (bs_b x) /\ 23 <= m_max_mtu m.
+
+Lemma bst_ok_db m n x : m_max_mtu n = m_max_mtu m -> bst_ok m x -> bst_ok n x.
+Proof. unfold bst_ok, ind_inv, proj. cbn. intros ->. tauto. Qed.
+
+Lemma map_set_nth {A B} (f : A -> B) l : forall i x, map f (set_nth i x l) = set_nth i (f x) (map f l).
+Proof. induction l as [|y l IH]; intros [|i] x; cbn; try reflexivity. rewrite IH. reflexivity. Qed.
+
+Lemma nth_map_pending bs i x : nth_error bs i = Some x -> nth i (map bs_pending bs) false = bs_pending x.
+Proof.
+  revert i. induction bs as [|y bs IH]; intros [|i] H; cbn in *; try discriminate.
+  - inversion H; reflexivity.
+  - apply IH; exact H.
+Qed.
+
+Lemma nth_none_default {A} (l : list A) i d : nth_error l i = None -> nth i l d = d.
+Proof. revert i. induction l as [|y l IH]; intros [|i] H; cbn in *; try discriminate; auto. Qed.
+
+Lemma set_nth_none {A} (l : list A) i x : nth_error l i = None -> set_nth i x l = l.
+Proof.
+  revert i. induction l as [|y l IH]; intros [|i] H; cbn in *; try discriminate; try reflexivity.
+  rewrite IH; [reflexivity|exact H].
+Qed.
+
+Lemma Forall_set_nth {A} (P : A -> Prop) l : forall i x, Forall P l -> P x -> Forall P (set_nth i x l).
+Proof.
+  induction l as [|y l IH]; intros [|i] x HF Hx; inversion HF; subst; cbn; constructor; auto.
+Qed.
+
+Lemma mstep_ind m i o n out :
+  Forall (bst_ok m) (m_bs m) -> mstep m i o = Some (n, out) ->
+  Forall (bst_ok n) (m_bs n) /\
+  exists p', sent_ok (if is_confirm o then false else nth i (map bs_pending (m_bs m)) false) out = Some p' /\
+             map bs_pending (m_bs n) = set_nth i p' (map bs_pending (m_bs m)).
+Proof.
+  intros Hok H. unfold mstep in H. destruct (nth_error (m_bs m) i) as [x|] eqn:E.
+  - destruct (step (proj m x) o) as [[st' out']|] eqn:Es; [|discriminate]. inversion H; subst. clear H.
+    assert (Hx : bst_ok m x) by (rewrite Forall_forall in Hok; apply Hok; eapply nth_error_In; exact E).
+    destruct Hx as (Hi & Hm & Hmax).
+    destruct (step_ind (proj m x) o st' out Hi Hm Es) as (Hi' & Hso).
+    destruct (step_mtu_ge (proj m x) o st' out Hm Hmax Es) as (Hm' & Hmax').
+    cbn [proj s_pending] in Hso. rewrite (nth_map_pending _ _ _ E). cbn [m_bs m_max_mtu].
+    split.
+    + apply Forall_set_nth.
+      * eapply Forall_impl; [|exact Hok]. intros y Hy. apply (bst_ok_db m); [reflexivity|exact Hy].
+      * unfold bst_ok, proj, bst_of. cbn [m_db m_max_mtu bs_b bs_subs bs_pending bs_waiting].
+        split; [|split; [exact Hm'|exact Hmax]].
+        unfold ind_inv in *. cbn [s_pending s_waiting] in *. exact Hi'.
+    + exists (s_pending st'). split; [exact Hso|]. rewrite map_set_nth. reflexivity.
+  - inversion H; subst. split; [exact Hok|].
+    rewrite (nth_none_default _ _ _ (eq_trans (nth_error_map _ _ _) (f_equal (option_map _) E))).
+    exists false. split; [destruct (is_confirm o); reflexivity|].
+    symmetry. apply set_nth_none. rewrite nth_error_map, E. reflexivity.
+Qed.
+
+(* Over every history on several bearers: on each bearer an indication is transmitted only
+   when no earlier indication on THAT bearer awaits its confirmation. *)
+Lemma mrun_ind_ok ops : forall m n outs,
+  Forall (bst_ok m) (m_bs m) -> mrun m ops = Some (n, outs) ->
+  mind_ok (map bs_pending (m_bs m)) ops outs = true.
+Proof.
+  induction ops as [|[i o] ops IH]; intros m n outs Hok Hr; cbn [mrun] in Hr.
+  - inversion Hr; reflexivity.
+  - destruct (mstep m i o) as [[m1 out]|] eqn:Es; [|discriminate].
+    destruct (mrun m1 ops) as [[m2 outs2]|] eqn:Er; [|discriminate]. inversion Hr; subst.
+    destruct (mstep_ind m i o m1 out Hok Es) as (Hok1 & p' & Hso & Hp).
+    cbn [mind_ok]. rewrite Hso, <- Hp. eapply IH; eassumption.
+Qed.
+
+Lemma minit_ok db max_mtu bs :
+  23 <= max_mtu -> Forall (fun b => 23 <= b_mtu b) bs ->
+  Forall (bst_ok (minit db max_mtu bs)) (m_bs (minit db max_mtu bs)).
+Proof.
+  intros Hx Hb. unfold minit. cbn [m_bs]. apply Forall_map. eapply Forall_impl; [|exact Hb].
+  intros b Hm. unfold bst_ok, proj, ind_inv. cbn. repeat split; try assumption. constructor.
+Qed.
+
+(* a stimulus on one bearer: what is sent fits that bearer's ATT_MTU, and every bearer keeps
+   the invariant (the others are not touched) *)
+Definition bst_inv (m : msrv) (x : bst) : Prop := inv (proj m x).
+
+Lemma mstep_le_mtu m i o n out x :
+  Forall (bst_inv m) (m_bs m) -> mstep m i o = Some (n, out) -> nth_error (m_bs m) i = Some x ->
+  (forall y, nth_error (m_bs n) i = Some y -> b_mtu (bs_b x) <= b_mtu (bs_b y) \/ bs_waiting y = []) ->
+  all_le (b_mtu (bs_b x)) out /\ Forall (bst_inv n) (m_bs n).
+Proof.
+  intros Hok H E Hk. unfold mstep in H. rewrite E in H.
+  destruct (step (proj m x) o) as [[st' out']|] eqn:Es; [|discriminate]. inversion H; subst. clear H.
+  assert (Hx : inv (proj m x)) by (rewrite Forall_forall in Hok; apply Hok; eapply nth_error_In; exact E).
+  cbn [m_bs] in Hk. specialize (Hk (bst_of st') (nth_set_same _ _ _ _ E)).
+  destruct (step_inv (proj m x) o st' out Hx Es Hk) as (Hi' & Hl).
+  split; [exact Hl|]. cbn [m_bs]. apply Forall_set_nth.
+  - eapply Forall_impl; [|exact Hok]. intros y Hy. unfold bst_inv, inv, proj, mtu_of in *. cbn in *. exact Hy.
+  - unfold bst_inv, inv, proj, bst_of, mtu_of in *. cbn in *.
+    pose proof (step_mtu_ge (proj m x) o st' out) as Hmx. unfold proj, mtu_of in Hmx. cbn in Hmx.
+    destruct Hx as (H1 & H2 & _). destruct (Hmx H1 H2 Es) as (_ & Hmax). rewrite <- Hmax. exact Hi'.
+Qed.
+
+(* ------------------------------------------------------------------ C10: bursts *)
+Lemma memz_In x l : memz x l = true -> In x l.
+Proof.
+  induction l as [|y l IH]; cbn; [discriminate|]. intros H. apply orb_true_iff in H.
+  destruct H as [H|H]; [left; symmetry; apply Z.eqb_eq; exact H|right; apply IH; exact H].
+Qed.
+
+Lemma reply_not_indication opc p :
+  In opc spec_requests -> reply_for opc p = true -> is_indication p = false.
+Proof.
+  intros Hin Hr. destruct p as [|x rest]; [reflexivity|]. unfold reply_for in Hr. cbn [is_indication].
+  apply orb_true_iff in Hr. destruct Hr as [Hr|Hr].
+  - apply Z.eqb_eq in Hr. subst x. unfold spec_requests in Hin. cbn [In] in Hin.
+    repeat (destruct Hin as [<-|Hin]; [reflexivity|]). contradiction.
+  - apply andb_true_iff in Hr. destruct Hr as [Hr _]. apply Z.eqb_eq in Hr. subst x. reflexivity.
+Qed.
+
+Definition req_count (opc : Z) : Z := if memz opc spec_requests then 1 else 0.
+
+Lemma rx_out_shape st opc ps st' out :
+  opc <> 30 -> rx st opc ps = Some (st', out) ->
+  len out = req_count opc /\ Forall (fun p => is_indication p = false) out /\
+  (23 <= mtu_of st -> all_le (mtu_of st) out).
+Proof.
+  intros H30 H. unfold req_count. destruct (memz opc spec_requests) eqn:E.
+  - pose proof (memz_In _ _ E) as Hin.
+    destruct (rx_request_one st opc ps Hin) as (st1 & p & Hrx & Hrep & Hl).
+    rewrite Hrx in H. inversion H; subst. split; [reflexivity|]. split.
+    + constructor; [eapply reply_not_indication; eassumption|constructor].
+    + intros Hm. apply all_le_one. exact (Hl Hm).
+  - destruct (rx_non_request st opc ps E H30) as (st1 & Hrx). rewrite Hrx in H. inversion H; subst.
+    split; [reflexivity|]. split; [constructor|intros _; constructor].
+Qed.
+
+Lemma count_requests_cons opc ps l : count_requests ((opc, ps) :: l) = req_count opc + count_requests l.
+Proof.
+  unfold count_requests, req_count. cbn [filter fst]. destruct (memz opc spec_requests).
+  - rewrite len_cons. reflexivity.
+  - reflexivity.
+Qed.
+
+Lemma deferred_not_confirm opc ps : deferred opc ps = true -> opc <> 30.
+Proof.
+  intros H ->. unfold deferred in H. destruct (parse_pdu 30 ps); [discriminate|].
+  cbn in H. discriminate.
+Qed.
+
+(* a PDU sent during a burst: not an indication, and no longer than the ATT_MTU in force *)
+Definition burst_out_ok (mp : Z * bytes) : Prop := len (snd mp) <= fst mp /\ is_indication (snd mp) = false.
+
+Lemma tag_ok m out :
+  all_le m out -> Forall (fun p => is_indication p = false) out ->
+  Forall burst_out_ok (map (fun p => (m, p)) out).
+Proof.
+  intros H1 H2. induction out as [|p out IH]; [constructor|].
+  inversion H1; inversion H2; subst. constructor; [split; assumption|apply IH; assumption].
+Qed.
+
+Lemma burst_later_spec d : forall st st' out,
+  23 <= mtu_of st -> 23 <= s_max_mtu st ->
+  Forall (fun x => deferred (fst x) (snd x) = true) d ->
+  burst_later st d = Some (st', out) ->
+  len out = count_requests d /\ Forall burst_out_ok out /\ 23 <= mtu_of st' /\ 23 <= s_max_mtu st'.
+Proof.
+  induction d as [|[opc ps] d IH]; intros st st' out Hm Hx Hd H; cbn [burst_later] in H.
+  - inversion H; subst. repeat split; try assumption. constructor.
+  - inversion Hd as [|? ? Hd1 Hd2]; subst. cbn [fst snd] in Hd1.
+    destruct (rx st opc ps) as [[st1 out1]|] eqn:Erx; [|discriminate].
+    destruct (burst_later st1 d) as [[st2 out2]|] eqn:El; [|discriminate]. inversion H; subst.
+    destruct (rx_out_shape st opc ps st1 out1 (deferred_not_confirm _ _ Hd1) Erx) as (Hc & Hni & Hle).
+    destruct (step_mtu_ge st (Rx opc ps) st1 out1 Hm Hx Erx) as (Hm1 & Hx1).
+    destruct (IH st1 st' out2 Hm1 ltac:(rewrite Hx1; exact Hx) Hd2 El) as (Hc2 & Hok2 & Hm2 & Hx2).
+    rewrite count_requests_cons, len_app. unfold len at 1. rewrite map_length. fold (len out1).
+    split; [lia|]. split; [|split; assumption].
+    apply Forall_app. split; [apply tag_ok; [exact (Hle Hm)|exact Hni]|exact Hok2].
+Qed.
+
+Lemma burst_now_spec l : forall st conf st' c out d,
+  23 <= mtu_of st -> 23 <= s_max_mtu st ->
+  burst_now st conf l = Some (st', c, out, d) ->
+  len out + count_requests d = count_requests l /\ Forall burst_out_ok out /\
+  Forall (fun x => deferred (fst x) (snd x) = true) d /\ 23 <= mtu_of st' /\ 23 <= s_max_mtu st'.
+Proof.
+  induction l as [|[opc ps] l IH]; intros st conf st' c out d Hm Hx H; cbn [burst_now] in H.
+  - inversion H; subst. repeat split; try assumption; constructor.
+  - destruct (deferred opc ps) eqn:Ed.
+    + destruct (burst_now st conf l) as [[[[st1 c1] out1] d1]|] eqn:E; [|discriminate]. inversion H; subst.
+      destruct (IH _ _ _ _ _ _ Hm Hx E) as (Hc & Hok & Hd & Hm' & Hx').
+      rewrite !count_requests_cons. split; [lia|]. split; [exact Hok|]. split; [|split; assumption].
+      constructor; [exact Ed|exact Hd].
+    + destruct (opc =? OP_CONFIRM) eqn:E30.
+      * apply Z.eqb_eq in E30. subst opc.
+        destruct (IH _ _ _ _ _ _ Hm Hx H) as (Hc & Hrest). rewrite count_requests_cons.
+        split; [exact Hc|exact Hrest].
+      * apply Z.eqb_neq in E30.
+        destruct (rx st opc ps) as [[st1 out1]|] eqn:Erx; [|discriminate].
+        destruct (burst_now st1 conf l) as [[[[st2 c2] out2] d2]|] eqn:E; [|discriminate]. inversion H; subst.
+        destruct (rx_out_shape st opc ps st1 out1 E30 Erx) as (Hc1 & Hni & Hle).
+        destruct (step_mtu_ge st (Rx opc ps) st1 out1 Hm Hx Erx) as (Hm1 & Hx1).
+        destruct (IH _ _ _ _ _ _ Hm1 ltac:(rewrite Hx1; exact Hx) E) as (Hc & Hok & Hd & Hm' & Hx').
+        rewrite count_requests_cons, len_app. unfold len at 1. rewrite map_length. fold (len out1).
+        split; [lia|]. split; [|split; [exact Hd|split; assumption]].
+        apply Forall_app. split; [apply tag_ok; [exact (Hle Hm)|exact Hni]|exact Hok].
+Qed.
+
+(* Every request of a burst is answered exactly once and nothing else is: the PDUs sent are as
+   many as the requests in the burst, none is an indication, each fits the ATT_MTU in force
+   when it was sent; the only other PDU a burst can cause is the oldest waiting indication,
+   released by a confirmation in the burst. *)
+Lemma burst_spec st l st' out rel :
+  23 <= mtu_of st -> 23 <= s_max_mtu st -> burst st l = Some (st', out, rel) ->
+  len out = count_requests l /\ Forall burst_out_ok out /\
+  (rel = [] \/ exists p w, rel = [p] /\ s_waiting st = p :: w).
+Proof.
+  intros Hm Hx H. unfold burst in H.
+  destruct (burst_now st false l) as [[[[st1 c] out1] d]|] eqn:En; [|discriminate].
+  destruct (burst_later st1 d) as [[st2 out2]|] eqn:El; [|discriminate].
+  destruct (burst_now_spec l _ _ _ _ _ _ Hm Hx En) as (Hc1 & Hok1 & Hd & Hm1 & Hx1).
+  destruct (burst_later_spec d _ _ _ Hm1 Hx1 Hd El) as (Hc2 & Hok2 & _ & _).
+  assert (Hw : s_waiting st2 = s_waiting st /\ s_pending st2 = s_pending st).
+  { (* the waiting indications are untouched by both passes *)
+    assert (Hnow : forall l st conf st' c out d, burst_now st conf l = Some (st', c, out, d) ->
+                   s_waiting st' = s_waiting st /\ s_pending st' = s_pending st).
+    { clear. induction l as [|[opc ps] l IH]; intros st conf st' c out d H; cbn [burst_now] in H.
+      - inversion H; auto.
+      - destruct (deferred opc ps).
+        + destruct (burst_now st conf l) as [[[[st1 c1] out1] d1]|] eqn:E; [|discriminate]. inversion H; subst.
+          eapply IH; exact E.
+        + destruct (opc =? OP_CONFIRM) eqn:E30; [eapply IH; exact H|]. apply Z.eqb_neq in E30.
+          destruct (rx st opc ps) as [[st1 out1]|] eqn:Erx; [|discriminate].
+          destruct (burst_now st1 conf l) as [[[[st2 c2] out2] d2]|] eqn:E; [|discriminate]. inversion H; subst.
+          destruct (IH _ _ _ _ _ _ E) as (H1 & H2). rewrite H1, H2.
+          apply rx_cases in Erx. destruct Erx as [(m & Hs)|[(He & _)|Hs]]; [|contradiction|].
+          * unfold h_mtu in Hs. inversion Hs. destruct (DEFAULT_MTU <=? m); auto.
+          * destruct Hs as (_ & _ & Hw & Hp & _). auto. }
+    assert (Hlater : forall d st st' out, Forall (fun x => deferred (fst x) (snd x) = true) d ->
+                     burst_later st d = Some (st', out) ->
+                     s_waiting st' = s_waiting st /\ s_pending st' = s_pending st).
+    { clear. induction d as [|[opc ps] d IH]; intros st st' out Hd H; cbn [burst_later] in H.
+      - inversion H; auto.
+      - inversion Hd as [|? ? Hd1 Hd2]; subst. cbn [fst snd] in Hd1.
+        destruct (rx st opc ps) as [[st1 out1]|] eqn:Erx; [|discriminate].
+        destruct (burst_later st1 d) as [[st2 out2]|] eqn:E; [|discriminate]. inversion H; subst.
+        destruct (IH _ _ _ Hd2 E) as (H1 & H2). rewrite H1, H2.
+        pose proof (deferred_not_confirm _ _ Hd1) as H30.
+        apply rx_cases in Erx. destruct Erx as [(m & Hs)|[(He & _)|Hs]]; [|contradiction|].
+        + unfold h_mtu in Hs. inversion Hs. destruct (DEFAULT_MTU <=? m); auto.
+        + destruct Hs as (_ & _ & Hw & Hp & _). auto. }
+    destruct (Hnow _ _ _ _ _ _ _ En) as (A1 & A2). destruct (Hlater _ _ _ _ Hd El) as (B1 & B2).
+    split; congruence. }
+  destruct Hw as (Hw & Hp).
+  destruct c.
+  - destruct (h_confirm st2) as [st3 r] eqn:Ec. inversion H; subst.
+    split; [rewrite len_app; lia|]. split; [apply Forall_app; split; assumption|].
+    unfold h_confirm in Ec. destruct (s_pending st2); [|inversion Ec; left; reflexivity].
+    destruct (s_waiting st2) as [|p w] eqn:Ew; inversion Ec; subst; [left; reflexivity|].
+    right. exists p, w. split; [reflexivity|]. rewrite <- Hw. reflexivity.
+  - inversion H; subst. split; [rewrite len_app; lia|]. split; [apply Forall_app; split; assumption|].
+    left. reflexivity.
+Qed.
+
+Lemma burst_total st l : exists r, burst st l = Some r.
+Proof.
+  assert (Hl : forall d st, exists r, burst_later st d = Some r).
+  { induction d as [|[opc ps] d IH]; intros st0; cbn [burst_later]; [eauto|].
+    destruct (rx_total st0 opc ps) as (st1 & out1 & ->). destruct (IH st1) as ([st2 out2] & ->). eauto. }
+  assert (Hn : forall l st conf, exists r, burst_now st conf l = Some r).
+  { induction l0 as [|[opc ps] l0 IH]; intros st0 conf; cbn [burst_now]; [eauto|].
+    destruct (deferred opc ps).
+    - destruct (IH st0 conf) as ([[[st1 c1] out1] d1] & ->). eauto.
+    - destruct (opc =? OP_CONFIRM); [apply IH|].
+      destruct (rx_total st0 opc ps) as (st1 & out1 & ->).
+      destruct (IH st1 conf) as ([[[st2 c2] out2] d2] & ->). eauto. }
+  unfold burst. destruct (Hn l st false) as ([[[st1 c] out1] d] & ->).
+  destruct (Hl d st1) as ([st2 out2] & ->). destruct c; [destruct (h_confirm st2)|]; eauto.
+Qed.
